@@ -714,7 +714,9 @@ func execPlain(sc *cScenario) *cResult {
 	var logBuf bytes.Buffer
 	if os.Getenv("VERIF_DEBUGLOG") == "" {
 		prev := log.Writer()
-		log.SetOutput(&logBuf) // the daemon's own log lines are an observable (bad-frame reports, throttle events)
+		// the daemon's own log lines are an observable (bad-frame reports, throttle events); a caller that
+		// listens to the log itself (C.log) keeps receiving it
+		log.SetOutput(io.MultiWriter(&logBuf, prev))
 		defer func() { log.SetOutput(prev); res.Log = logBuf.String() }()
 	}
 	bubble(func(t *testing.T) {
